@@ -158,15 +158,15 @@ type KnownFinding struct {
 }
 
 type oblReport struct {
-	Name     string   `json:"obligation"`
-	Func     string   `json:"function"`
-	Kind     string   `json:"kind"`
-	Where    string   `json:"where"`
-	Clause   string   `json:"clause,omitempty"`
-	Queries  int      `json:"queries"`
-	Status   string   `json:"status"`
-	Solvers  []string `json:"solvers,omitempty"`
-	TimeS    float64  `json:"solver_time_s"`
+	Name    string   `json:"obligation"`
+	Func    string   `json:"function"`
+	Kind    string   `json:"kind"`
+	Where   string   `json:"where"`
+	Clause  string   `json:"clause,omitempty"`
+	Queries int      `json:"queries"`
+	Status  string   `json:"status"`
+	Solvers []string `json:"solvers,omitempty"`
+	TimeS   float64  `json:"solver_time_s"`
 }
 
 func cmdCheck(args []string) int {
@@ -609,8 +609,11 @@ func cmdCheck(args []string) int {
 	if nasset > 0 {
 		assum = append(assum, fmt.Sprintf("A-YAML: %d data obligations (kind asset) are about embedded files parsed by govc with yaml.v3 into ground facts; yaml.v3 is assumed to decode that node tree into the Go structures according to their struct tags", nasset))
 	}
-	for _, ax := range v.axiomTerms {
-		assum = append(assum, "axiom "+ax.name+": "+ax.src)
+	for i, ax := range v.axiomTerms {
+		// only the axioms that were part of at least one query of this property
+		if v.axiomUsed[i] {
+			assum = append(assum, "axiom "+ax.name+": "+ax.src)
+		}
 	}
 	ev := map[string]interface{}{
 		"property_id": prop,
